@@ -14,6 +14,23 @@ OPS = {"__add__", "__sub__", "__mul__", "__truediv__", "__iadd__", "__isub__", "
        "__rtruediv__", "__radd__", "__rsub__"}
 
 
+def concrete_origin(o):
+    """the python number an origin built from known numbers only denotes (('num', x), 0-d indexing of it, comparisons between such), else None"""
+    import operator as _op
+    if isinstance(o, bool) or isinstance(o, (int, float)):
+        return o
+    if isinstance(o, tuple) and len(o) == 2 and o[0] == "num" and isinstance(o[1], (int, float)):
+        return o[1]
+    if isinstance(o, tuple) and len(o) == 3 and o[0] == "idx" and o[2] in ((), ("()",), "()"):
+        return concrete_origin(o[1])
+    if isinstance(o, tuple) and len(o) == 3 and o[0] in ("<", "<=", ">", ">=", "==", "!="):
+        a, b = concrete_origin(o[1]), concrete_origin(o[2])
+        if a is None or b is None:
+            return None
+        return {"<": _op.lt, "<=": _op.le, ">": _op.gt, ">=": _op.ge, "==": _op.eq, "!=": _op.ne}[o[0]](a, b)
+    return None
+
+
 class RawTok(Model):
     """raw ndarray / number behind an Array"""
     kinds = ("ndarray",)
@@ -80,6 +97,9 @@ class RawTok(Model):
             raise Raised("ValueError", None, "The truth value of an array with more than one element is ambiguous. Use a.any() or a.all()")
         if n == 0:
             return False
+        c = concrete_origin(self.origin)
+        if c is not None:
+            return bool(c)
         from ..models import decide
         return decide("truth of the array %r" % (self.origin,), "truth value of the array %r is not decided by the abstraction" % (self,))
 
